@@ -313,8 +313,8 @@ fn run_shape(args: &Args, report: &mut Report, rng: &mut Rng, case: u64, forced:
     if res.any_panicked() {
         errs.push(format!("the job crashed: {:?}", res.panic_messages()));
     }
-    if !res.leaked_threads.is_empty() {
-        errs.push(format!("{} engine threads were still alive 5 s after execute_blocking returned on every host: {}", res.leaked_threads.len(), census_json(&res.leaked_threads)));
+    if !res.leaked_threads.is_empty() && res.leak_certified {
+        errs.push(format!("{} engine threads never end although execute_blocking returned on every host (all parked, no engine event across 8 snapshots): {}", res.leaked_threads.len(), census_json(&res.leaked_threads)));
     }
     let (wa, wb) = expected(shape, n);
     let firsts: Vec<usize> = res.hosts.iter().flatten().filter_map(|h| match h { HostOutcome::Ok((Some(a), _)) => Some(*a), _ => None }).collect();
@@ -389,7 +389,7 @@ fn run_random_programs(args: &Args, report: &mut Report, rng: &mut Rng, first_ca
             report.count("sends", out.log.counters.sends.load(Ordering::Relaxed));
             let mut errs: Vec<String> = out.findings.iter().filter(|f| f.class == crate::jobgen::check::Class::Sink).map(|f| f.msg.clone()).collect();
             if out.leaked > 0 {
-                errs.push(format!("{} engine threads still alive 5 s after the job returned", out.leaked));
+                errs.push(format!("{} engine threads never end although the job returned (all parked, no engine event across 8 snapshots)", out.leaked));
             }
             if !out.panics.is_empty() {
                 let msg = out.panics.join(" | ");
